@@ -8,9 +8,19 @@
     update or receiver-mutating `math/big` call whose target is rooted in a
     package-level variable or in a `*basex.Encoding` — the shared state is
     read-only after construction.  Re-checked by the kernel on every run.
-  * `C20_schedule_independent`: in a machine where threads interleave atomic
-    steps over private state and a shared state that no step writes, every
-    schedule gives each thread exactly the state of its solo run.
+  * `C20_globals_known`: the *generated* list of package-level variables is,
+    entry for entry, the list written out here (error values, the four shipped
+    encodings, the armor parameters, the eight frame-checker function values) —
+    a new, renamed or removed global breaks this obligation before any input is
+    needed, however it is named.
+  * `C20_schedule_independent` / `C20_schedules_agree`: GENERIC facts about
+    interleavings (nothing saltpack-specific in them): in a machine where
+    threads interleave atomic steps over private state and a shared state that,
+    by the TYPE of `step`, no step can write, every schedule gives each thread
+    exactly the state of its solo run.  They say what "no interference" means
+    once the shared state is read-only; that saltpack's shared state IS
+    read-only after construction is the content of `C20_frame` alone (and of the
+    race-detector runs), not of these two theorems.
   What this cannot exhibit (labelled partial in MANIFEST): soundness of the
   static write-set extraction (aliasing through interfaces, stdlib internals)
   and the Go memory model itself; the thorough tier adds a race-detector run.
@@ -23,19 +33,22 @@ namespace Saltpack.Props.C20
 theorem C20_frame : Saltpack.Gen.sharedWrites = [] := by decide
 
 
-/-- error values, the shipped encodings, the armor parameters, the frame-checker
-    function values -/
-def allowedGlobal (g : List UInt8) : Bool :=
-  g.take 6 == [115, 112, 46, 69, 114, 114] ||            -- "sp.Err"
-  g.take 9 == [98, 97, 115, 101, 120, 46, 69, 114, 114] || -- "basex.Err"
-  g.take 10 == [115, 112, 46, 97, 114, 109, 111, 114, 54, 50] || -- "sp.armor62"
-  g == [115, 112, 46, 65, 114, 109, 111, 114, 54, 50, 80, 97, 114, 97, 109, 115] || -- "sp.Armor62Params"
-  g.take 15 == [98, 97, 115, 101, 120, 46, 66, 97, 115, 101, 53, 56, 83, 116, 100] || -- "basex.Base58Std"
-  g.take 15 == [98, 97, 115, 101, 120, 46, 66, 97, 115, 101, 54, 50, 83, 116, 100]    -- "basex.Base62Std"
+/-- **The package-level variables are exactly these** (regenerated from /repo's
+    typed AST on every run; compared entry by entry, so a new mutable global
+    fails here whatever its name — no name-prefix filter): the BaseX error
+    value and the four shipped encodings (`*basex.Encoding`, written only by
+    `NewEncoding` during package initialisation — outside the effect summary's
+    scope by construction, and never afterwards: `C20_frame`), the armor
+    parameters, the `Err…` sentinel values, and the eight frame-checker
+    function values. -/
+theorem C20_globals_known : Saltpack.Gen.globals = ["basex.Base58StdEncoding", "basex.Base58StdEncodingStrict", "basex.Base62StdEncoding", "basex.Base62StdEncodingStrict", "basex.ErrInvalidEncodingLength", "sp.Armor62Params", "sp.ErrBadBoxKey", "sp.ErrBadEphemeralKey", "sp.ErrBadLookup", "sp.ErrBadReceivers", "sp.ErrBadSenderKeySecretbox", "sp.ErrBadSignature", "sp.ErrBadSymmetricKey", "sp.ErrDecryptionFailed", "sp.ErrFailedToReadHeaderBytes", "sp.ErrInsufficientRandomness", "sp.ErrNoDecryptionKey", "sp.ErrNotASaltpackMessage", "sp.ErrOverflow", "sp.ErrPacketOverflow", "sp.ErrPunctuated", "sp.ErrShortSliceOrBuffer", "sp.ErrTrailingGarbage", "sp.ErrUnexpectedEmptyBlock", "sp.ErrWrongNumberOfKeys", "sp.armor62DetachedSignatureFrameChecker", "sp.armor62DetachedSignatureHeaderChecker", "sp.armor62EncryptionFrameChecker", "sp.armor62EncryptionHeaderChecker", "sp.armor62SignatureFrameChecker", "sp.armor62SignatureHeaderChecker", "sp.armor62SigncryptionFrameChecker", "sp.armor62SigncryptionHeaderChecker"] := rfl
 
-/-- the package-level variables are exactly of the kinds the summary reasons
-    about -/
-theorem C20_globals_known : Saltpack.Gen.globalsBytes.all allowedGlobal = true := by decide
+/-- the byte-list rendering of the same names (kept for kernel-reducible
+    checks) is in step with it, character for character -/
+theorem C20_globals_bytes_in_step :
+    Saltpack.Gen.globalsBytes.map (·.map UInt8.toNat) =
+      Saltpack.Gen.globals.map (fun s => s.toList.map Char.toNat) := by
+  decide
 
 /-- an interleaved machine: `step t g s` is one atomic step of thread `t` on its
     private state `s`, reading the shared state `g` — and, by its type, unable
@@ -50,7 +63,11 @@ def iter {σ : Type} (f : σ → σ) : Nat → σ → σ
 
 /-- **every schedule gives each thread the result of its solo run**: thread `t`
     ends in the state obtained by applying its own step as many times as it was
-    scheduled, regardless of what the other threads did in between -/
+    scheduled, regardless of what the other threads did in between.
+    A generic fact about any `step` of this type — steps that CANNOT write the
+    shared state `g`; it holds for every such machine and says nothing about
+    saltpack by itself.  The saltpack-specific premise (the code's steps are of
+    this kind: the regenerated SSA effect summary is empty) is `C20_frame`. -/
 theorem C20_schedule_independent {G σ : Type} (step : Nat → G → σ → σ) (g : G)
     (sched : List Nat) (st : Nat → σ) (t : Nat) :
     runSched step g sched st t = iter (step t g) (sched.count t) (st t) := by
@@ -64,7 +81,8 @@ theorem C20_schedule_independent {G σ : Type} (step : Nat → G → σ → σ) 
     · have h' : ¬ t = u := fun e => h e.symm
       simp [List.count_cons, h, h', iter]
 
-/-- in particular two schedules with the same per-thread step counts agree -/
+/-- in particular two schedules with the same per-thread step counts agree
+    (equally generic; see `C20_schedule_independent`) -/
 theorem C20_schedules_agree {G σ : Type} (step : Nat → G → σ → σ) (g : G)
     (s1 s2 : List Nat) (st : Nat → σ) (t : Nat) (h : s1.count t = s2.count t) :
     runSched step g s1 st t = runSched step g s2 st t := by
@@ -72,6 +90,6 @@ theorem C20_schedules_agree {G σ : Type} (step : Nat → G → σ → σ) (g : 
 
 /-! ## non-vacuity -/
 example : runSched (fun t (g : Nat) s => s + g + t) 10 [0, 1, 0] (fun _ => 0) 0 = 20 := by decide
-example : Saltpack.Gen.globalsBytes ≠ [] := by decide
+example : Saltpack.Gen.globals.length = 33 := by decide
 
 end Saltpack.Props.C20
